@@ -64,9 +64,21 @@ def oracle(case, rec):
     good = bool(case['good'])
     p2 = p if p.ndim == 2 else p[:, None]
     kwargs = {} if 'step' not in case else {'phase_step': step}
-    if np.any(np.abs(np.abs(np.diff(p2, axis=0)) - step) <= 1e-12):
+    tie = 1e-12
+    stored = p
+    if case.get('pdtype') == 'f4':
+        # the phase held in single precision: the partition is that of the exact stored values; numpy compares a float32
+        # array with a Python float in single precision, so differences within 1e-5 of the threshold are left undecided
+        stored = p.astype(np.float32)
+        p = stored.astype(float)
+        p2 = p if p.ndim == 2 else p[:, None]
+        tie = 1e-5
+        if np.any(p >= 2 * np.pi - 1e-6):
+            raise Discard('a single-precision phase value rounds up to 2pi')
+        rec.cls('phase stored as float32')
+    if np.any(np.abs(np.abs(np.diff(p2, axis=0)) - step) <= tie):
         raise Discard('a phase difference equals phase_step exactly (docstring says "minimum value", code uses >)')
-    arg = gens.relayout(p.copy(), case.get('layout', 'C'))
+    arg = gens.relayout(stored.copy(), case.get('layout', 'C'))
     if case.get('pre'):
         # an earlier, different request in the same process (all cycles with a validity mask): it must be answered
         # correctly itself - masked segments skipped, the others numbered consecutively - and leave nothing behind
@@ -136,11 +148,12 @@ STEPS = [np.pi / 2, np.pi, 1.5 * np.pi, 1.9 * np.pi, 0, 0.0]     # a zero thresh
 def synth_strategy(max_n):
     return st.fixed_dictionaries({'p': gens.synth_phase(max_n=max_n), 'good': st.booleans(),
                                   'step': st.sampled_from(STEPS), 'layout': st.sampled_from(gens.LAYOUTS),
-                                  'pre': st.sampled_from([False, False, True])})
+                                  'pre': st.sampled_from([False, False, True]), 'pdtype': st.sampled_from(['f8', 'f8', 'f4'])})
 
 
 short_strategy = st.fixed_dictionaries({'p': gens.short_phase(30), 'good': st.booleans(),
-                                        'step': st.sampled_from(STEPS), 'pre': st.sampled_from([False, False, True])})
+                                        'step': st.sampled_from(STEPS), 'pre': st.sampled_from([False, False, True]),
+                                        'pdtype': st.sampled_from(['f8', 'f8', 'f4'])})
 
 CLAUSES = [
     Clause('C12.exhaustive', oracle, enumerate=enum_alphabet, quick=None, thorough=None,
